@@ -110,4 +110,10 @@ META["C17"] = {
     "technique": "exhaustive matrix enumeration + property-based testing (rapid); oracle: model of the statement, reference verifier, cross-hash metamorphic checks",
 }
 
+META["C20"] = {
+    "text": "Fault enumeration: the space of signer, verifier, crypto.Signer and entropy-source outcomes per call is small and finite for the listed entry points (n <= 4/5), so every fault vector is executed with fault-injecting spies and a cut-off entropy reader, and the consequences listed in the statement are checked after each; random generated messages add header/payload variety.",
+    "note": TRUST + " Fault points inside crypto/* other than the entropy reader and the crypto.Signer boundary cannot be injected.",
+    "technique": "exhaustive fault-vector enumeration with fault-injecting Signer/Verifier/crypto.Signer/io.Reader + property-based testing (rapid)",
+}
+
 NOT_APPLICABLE = {}
